@@ -64,7 +64,9 @@ type Req struct {
 	Gzip    bool   `json:"gzip"`     // Accept-Encoding: gzip
 	ReqMark string `json:"req_mark"` // client-sent X-Verif-Req ("" = absent)
 	// Dress: request attributes no plugin's decision is documented to depend on.
-	// "" | upgrade-websocket | upgrade-h2c | expect-continue | put | patch | delete | auth-header | range
+	// "" | upgrade-websocket | upgrade-h2c | expect-continue | put | patch | delete | auth-header | range |
+	// cors-preflight | cors-preflight-min | options | head | trace | connect | origin | origin-acrm |
+	// method-override | propfind | options-lower | cookie | forwarded
 	Dress string `json:"dress,omitempty"`
 	// ExtraKeys: further X-API-Key field lines after the first (APIKey). What a plugin makes of a
 	// request with several key lines is not documented (first line, any line, refuse as
@@ -73,7 +75,75 @@ type Req struct {
 }
 
 // Dresses lists the values of Req.Dress.
-var Dresses = []string{"", "upgrade-websocket", "upgrade-h2c", "expect-continue", "put", "patch", "delete", "auth-header", "range"}
+var Dresses = []string{"", "upgrade-websocket", "upgrade-h2c", "expect-continue", "put", "patch", "delete", "auth-header", "range",
+	"cors-preflight", "cors-preflight-min", "options", "head", "trace", "connect", "origin", "origin-acrm", "method-override", "propfind", "options-lower", "cookie", "forwarded"}
+
+// applyDress puts the dressing on a request (method and header fields only; path, body and the
+// X-API-Key lines stay what the case says). Every shape is one a client can put on the wire:
+// a CORS preflight as browsers send it (OPTIONS + Origin + Access-Control-Request-Method
+// [+ Access-Control-Request-Headers]), other methods (OPTIONS/HEAD/TRACE/PROPFIND, CONNECT with a
+// path as Go's own RPC client sends it, a lower-case method token), with the case's body if it has
+// one, and header fields of neighbouring mechanisms. The statement's gating depends on none of them.
+func applyDress(r *http.Request, dress, apiKey string) {
+	switch dress {
+	case "upgrade-websocket":
+		r.Header.Set("Connection", "Upgrade")
+		r.Header.Set("Upgrade", "websocket")
+		r.Header.Set("Sec-WebSocket-Version", "13")
+		r.Header.Set("Sec-WebSocket-Key", "dGhlIHNhbXBsZSBub25jZQ==")
+	case "upgrade-h2c":
+		r.Header.Set("Connection", "Upgrade, HTTP2-Settings")
+		r.Header.Set("Upgrade", "h2c")
+		r.Header.Set("HTTP2-Settings", "AAMAAABkAAQCAAAAAAIAAAAA")
+	case "expect-continue":
+		r.Header.Set("Expect", "100-continue")
+	case "put":
+		r.Method = "PUT"
+	case "patch":
+		r.Method = "PATCH"
+	case "delete":
+		r.Method = "DELETE"
+	case "auth-header":
+		r.Header.Set("Authorization", "Bearer "+apiKey+"x")
+	case "range":
+		r.Header.Set("Range", "bytes=0-3")
+	case "cors-preflight":
+		r.Method = "OPTIONS"
+		r.Header.Set("Origin", "https://app.example.com")
+		r.Header.Set("Access-Control-Request-Method", "POST")
+		r.Header.Set("Access-Control-Request-Headers", "x-api-key, content-type")
+	case "cors-preflight-min":
+		r.Method = "OPTIONS"
+		r.Header.Set("Origin", "null")
+		r.Header.Set("Access-Control-Request-Method", "GET")
+	case "options":
+		r.Method = "OPTIONS"
+	case "head":
+		r.Method = "HEAD"
+	case "trace":
+		r.Method = "TRACE"
+	case "connect":
+		r.Method = "CONNECT"
+	case "origin":
+		r.Header.Set("Origin", "https://app.example.com")
+	case "origin-acrm":
+		r.Header.Set("Origin", "https://app.example.com")
+		r.Header.Set("Access-Control-Request-Method", "DELETE")
+	case "method-override":
+		r.Header.Set("X-HTTP-Method-Override", "OPTIONS")
+	case "propfind":
+		r.Method = "PROPFIND"
+	case "options-lower":
+		r.Method = "options"
+		r.Header.Set("Origin", "https://app.example.com")
+		r.Header.Set("Access-Control-Request-Method", "POST")
+	case "cookie":
+		r.Header.Set("Cookie", "X-API-Key="+apiKey+"; session=1")
+	case "forwarded":
+		r.Header.Set("X-Forwarded-For", "127.0.0.1")
+		r.Header.Set("X-Real-IP", "127.0.0.1")
+	}
+}
 
 const (
 	hdrReq  = "X-Verif-Req"
@@ -322,6 +392,9 @@ type Observation struct {
 	RespMark string   `json:"resp_mark"`
 	Inst     []string `json:"instances"` // labels of headers instances whose X-Verif-H-* reached the client
 	RespRID  bool     `json:"resp_request_id"`
+	// LogLines: lines the process-global logger wrote for this request's (unique) path = access-log
+	// lines of the `logging` instances that saw the request (-1: log not captured)
+	LogLines int `json:"log_lines"`
 }
 
 // Run serves one request through h and returns the observation.
@@ -332,7 +405,8 @@ func Run(h http.Handler, rq Req) Observation {
 		method = "POST"
 	}
 	body = strings.NewReader(strings.Repeat("x", rq.Body))
-	r := httptest.NewRequest(method, "http://helios.test/some/path", body)
+	path := uniquePath()
+	r := httptest.NewRequest(method, "http://helios.test"+path, body)
 	r.RemoteAddr = "10.0.0.1:4000"
 	if rq.APIKey != "" {
 		r.Header.Set("X-API-Key", rq.APIKey)
@@ -346,29 +420,7 @@ func Run(h http.Handler, rq Req) Observation {
 	if rq.ReqMark != "" {
 		r.Header.Set(hdrReq, rq.ReqMark)
 	}
-	switch rq.Dress {
-	case "upgrade-websocket":
-		r.Header.Set("Connection", "Upgrade")
-		r.Header.Set("Upgrade", "websocket")
-		r.Header.Set("Sec-WebSocket-Version", "13")
-		r.Header.Set("Sec-WebSocket-Key", "dGhlIHNhbXBsZSBub25jZQ==")
-	case "upgrade-h2c":
-		r.Header.Set("Connection", "Upgrade, HTTP2-Settings")
-		r.Header.Set("Upgrade", "h2c")
-		r.Header.Set("HTTP2-Settings", "AAMAAABkAAQCAAAAAAIAAAAA")
-	case "expect-continue":
-		r.Header.Set("Expect", "100-continue")
-	case "put":
-		r.Method = "PUT"
-	case "patch":
-		r.Method = "PATCH"
-	case "delete":
-		r.Method = "DELETE"
-	case "auth-header":
-		r.Header.Set("Authorization", "Bearer "+rq.APIKey+"x")
-	case "range":
-		r.Header.Set("Range", "bytes=0-3")
-	}
+	applyDress(r, rq.Dress, rq.APIKey)
 	tr := &Trace{}
 	r = r.WithContext(context.WithValue(r.Context(), traceKey{}, tr))
 	rec := httptest.NewRecorder()
@@ -382,6 +434,7 @@ func Run(h http.Handler, rq Req) Observation {
 		}
 	}
 	sort.Strings(o.Inst)
+	o.LogLines = logLines(path)
 	return o
 }
 
@@ -488,6 +541,8 @@ func predictWith(chain []Elem, rq Req, decide func(Elem) (bool, int)) Prediction
 		case "request-id":
 			rid = 1
 			p.RespRID = true
+		case "logging":
+			p.LogLines++ // listed before any rejecting plugin: it sees the request and logs it once
 		}
 	}
 	if p.RejectAt < 0 {
@@ -517,6 +572,9 @@ func Diff(o Observation, p Prediction) string {
 	}
 	if o.RespRID != p.RespRID {
 		d = append(d, fmt.Sprintf("response X-Request-ID present=%v, expected %v", o.RespRID, p.RespRID))
+	}
+	if o.LogLines >= 0 && o.LogLines != p.LogLines {
+		d = append(d, fmt.Sprintf("the access log has %d line(s) for this request, expected %d (one per `logging` instance listed before the rejecting plugin / in the chain, none from an instance listed after the plugin that rejected the request)", o.LogLines, p.LogLines))
 	}
 	return strings.Join(d, "; ")
 }
